@@ -65,8 +65,12 @@ func cmdBcReplay() {
 			}
 			switch {
 			case !o.Admit && !refused:
-				_, a := dec(sel)
-				why = fmt.Sprintf("address %d is accepted and decodes as %d", g("addr"), a)
+				// outside the range the model admits: fine if the implementation round-trips it anyway, wrong if it wraps
+				k, a := dec(sel)
+				ok2, oa := dec(osel)
+				if a != g("addr") || int(k) != g("k") || int(ok2) != g("ok") || oa != g("oaddr") || int(word.OpCode()) != g("op")%128 {
+					why = fmt.Sprintf("address %d is accepted and decodes as %d", g("addr"), a)
+				}
 			case !o.Admit:
 			case refused:
 				why = "an admissible operand is refused"
